@@ -31,10 +31,12 @@ func Check() *common.Check {
 		Rule: "every statement of the model grammar (sqlgen.All: all expression trees with <=2 operator nodes over the full operator catalogue, " +
 			"<=3 (quick) / <=4 (thorough) over one representative per precedence class, every expression hole x every representative expression, " +
 			"all 2^10 SELECT clause subsets, DML/DDL clause subsets, statement-valued holes to depth 1/2), each in minimal- and full-parenthesis form " +
-			"and under 4 layouts; distinct = distinct (SQL text); non-trivial = accepted by the parser and containing at least one operator node, clause option or nested statement (feature count >= 3)",
-		Assume: []string{"reference precedence table of sqlgen/expr.go (OR<AND<NOT<comparison<||<+-<*/%<JSON<unary<::/[]); dialect-dependent mixes are always parenthesised",
+			"and under 4 layouts; plus the ambiguous-mix family (mix.go): every ordered operator pair of differing classes with one of ||/JSON and the other ||/JSON/+-/*/% " +
+			"written WITHOUT parentheses (x op1 y op2 z) in 3 (quick) / 7 (thorough) host positions x 1 / 4 operand triples x 2 layouts, tree = either grouping; distinct = distinct (SQL text); non-trivial = accepted by the parser and containing at least one operator node, clause option or nested statement (feature count >= 3)",
+		Assume: []string{"reference precedence table of sqlgen/expr.go (OR<AND<NOT<comparison<||<+-<*/%<JSON<unary<::/[]); dialect-dependent mixes are always parenthesised in sqlgen.All and accept either grouping in the ambiguous-mix family",
 			"canonical dump normalises SelectStatement.TableName and JoinClause.Left (derived fields)", "small-scope hypothesis above the stated bounds"},
 		Enumerate: func(e *common.Enum) {
+			enumerateMixes(e)
 			sqlgen.All(e.Thorough(), func(name string, s sqlgen.S) {
 				sec := name
 				if i := strings.Index(name, "/"); i > 0 {
